@@ -360,6 +360,8 @@ class Check:
         os.makedirs(os.path.join(VERIF, "replays"), exist_ok=True)
         h = hashlib.md5(json.dumps(case, sort_keys=True, default=str).encode()).hexdigest()[:10]
         path = os.path.join(VERIF, "replays", f"{self.id}-{h}.json")
+        if path in self.violations:
+            return
         with open(path, "w") as f:
             json.dump({"property": self.id, "what": what, "case": case, "seed": self.seed, "tier": self.tier},
                       f, indent=1, default=str)
